@@ -278,6 +278,8 @@ def ulenStep (ulen start : Nat) (f : PField) : Nat :=
 def PsipURI.adjustOffs (u : PsipURI) (np : PField) : Bool × PsipURI × Bool :=
   let offs := np.offs
   let end_ := trunc16 (offs + np.len)
+  -- `if end < offs { return false }`: the new position does not fit in the 16 bit offsets (fix 1a8b02b)
+  if end_ < offs then (false, u, false) else
   let sum := trunc16 (u.scheme.len + u.user.len + u.pass.len + u.host.len + u.port.len +
                       u.params.len + u.headers.len)
   if sum > np.len then (false, u, false)
